@@ -37,12 +37,46 @@ inline bool file_exists(std::filesystem::path p)
     return infile.good();
 }
 
+// Removes every "name/.." pair (and "." segments) from the path, so that "a/b/../c" refers to "a/c" no matter
+// whether "b" is part of the virtual tree or of the physical remainder. Dir-ups that cannot be paired stay in front.
+static std::string resolve_dir_up_lexically(const std::string& path)
+{
+    std::vector<std::string> segments;
+    size_t start = 0;
+    while (start <= path.size())
+    {
+        auto end = path.find('/', start);
+        if (end == std::string::npos) { end = path.size(); }
+        auto segment = path.substr(start, end - start);
+        start = end + 1;
+        if (segment.empty() || segment == "."s) { continue; }
+        if (segment == ".."s && !segments.empty() && segments.back() != ".."s)
+        {
+            segments.pop_back();
+        }
+        else
+        {
+            segments.push_back(segment);
+        }
+    }
+    std::string result;
+    bool absolute = !path.empty() && path[0] == '/';
+    for (auto& segment : segments)
+    {
+        if (absolute || !result.empty()) { result.append("/"); }
+        result.append(segment);
+    }
+    if (absolute && result.empty()) { result = "/"; }
+    return result;
+}
+
 std::optional<sqf::runtime::fileio::pathinfo> sqf::fileio::impl_default::get_info_virtual(std::string_view viewVirtual, sqf::runtime::fileio::pathinfo current) const
 {
     // Create & Cleanse stuff
     auto virt = std::string(viewVirtual);
     std::replace(virt.begin(), virt.end(), '\\', '/');
     virt = std::string(sqf::runtime::util::trim(virt));
+    virt = resolve_dir_up_lexically(virt);
     std::string virtFull = virt;
 
     log(logmessage::fileio::ResolveVirtualRequested(current.physical, virt));
